@@ -256,6 +256,23 @@ def fam_trunc_retry(rng):
     return out
 
 
+def fam_forged(rng):
+    """Forged copies of a genuine vertex (same hash and seal, rewritten parents / weight / amount) offered before the
+    node has seen the genuine one, while the genuine one is parked (verified, not admitted), and after it is held."""
+    out = []
+    for kind in ("parents", "weight", "amount"):
+        F = lambda v: {"op": "forge", "n": "N1", "v": v, "kind": kind}
+        base = [G(), P("N1", "t1", 2),
+                {"op": "craft", "s": "N2", "t": "t3", "l": 2, "r": 2, "w": 2, "id": 3},
+                {"op": "craft", "s": "N2", "t": "t5", "l": 3, "r": 3, "w": 3, "id": 4}]
+        # unseen; parked genuine child, then the forged copy; genuine admitted by retry, forged again
+        out.append(("single", 2, base + [F(4), F(3), D("N1", 4), F(4), F(4), D("N1", 3), F(3), {"op": "tick", "n": "N1"}, F(4), F(3),
+                                         P("N1", "t2", 5), F(4)]))
+        # the forged copy first, then the genuine vertex must still be admitted
+        out.append(("single", 2, base + [F(3), D("N1", 3), F(4), D("N1", 4), F(4), P("N1", "t2", 5), {"op": "truncate", "n": "N1"}, F(3), F(4)]))
+    return out
+
+
 def fam_weights(rng):
     """A delivered vertex that claims a weight far above its parents' moves the weight window: tips below the window
     become invalid (and are dropped by the next proposal), deliveries below it are refused.  Around the boundary
@@ -557,7 +574,7 @@ PROPS = {
                 gens=[("two", 0.5), ("twosingle", 0.3), ("drain", 0.2)], fams=["doublespend", "truncation"], mc="two"),
     "C03": dict(strict=["ProposePre", "ProposeCommit", "DeliverPre", "DeliverCommit", "TickPop", "Wedged"],
                 inv=["C03_UniqueTrx", "C03_IndexExact", "TypeOK"], prop=["C03_Reproposable"],
-                gens=[("single", 0.7), ("twosingle", 0.3)], fams=["concurrent", "truncation"], mc="single"),
+                gens=[("single", 0.7), ("twosingle", 0.3)], fams=["concurrent", "truncation", "forged"], mc="single"),
     "C06": dict(strict=["Balance", "Wedged"], inv=[], prop=[],
                 gens=[("single", 0.4), ("drain", 0.3), ("twosingle", 0.3)], fams=["truncation", "load"], mc="single"),
     "C07": dict(strict=["Truncate", "TruncateCancelled", "ReadTrx", "ReadVertex", "ProposePre", "DeliverPre", "Balance", "Wedged"],
@@ -565,7 +582,7 @@ PROPS = {
                 gens=[("single", 0.5), ("drain", 0.5)], fams=["truncation", "trunc_retry"], mc="single"),
     "C09": dict(strict=["ProposeCommit", "Genesis", "Wedged"],
                 inv=["C09_WellFormed", "SelfAuthentic", "ViewConsistent", "TypeOK"], prop=["C09_LocalCreate"],
-                gens=[("single", 0.6), ("twosingle", 0.4)], fams=["truncation", "concurrent", "load"], mc="single"),
+                gens=[("single", 0.6), ("twosingle", 0.4)], fams=["truncation", "concurrent", "load", "forged"], mc="single"),
     "C10": dict(strict=["ProposePre", "DeliverPre", "Genesis", "TickPop", "Load", "Wedged"],
                 inv=["C10_SealingRules"], prop=[],
                 gens=[("rules", 0.7), ("twosingle", 0.3)], fams=["rules", "load"], mc="rules"),
@@ -573,7 +590,7 @@ PROPS = {
                 gens=[("rules", 0.6), ("tworules", 0.4)], fams=["canon", "rules"], mc="rules"),
     "C13": dict(strict=["DeliverPre", "DeliverCommit", "TickPop", "Compare", "Wedged"],
                 inv=["C03_UniqueTrx", "TypeOK"], prop=["C01_NoOverdraftConfirmed"],
-                gens=[("twosingle", 1.0)], fams=["orphans"], mc="two"),
+                gens=[("twosingle", 1.0)], fams=["orphans", "forged"], mc="two"),
     "C14": dict(strict=["Load", "Compare", "Wedged"], inv=[], prop=["C14_T"],
                 gens=[("twosingle", 1.0)], fams=["load"], mc="two"),
 }
@@ -597,6 +614,7 @@ FAMS = {
     "canon": lambda rng, tier: fam_canon(rng),
     "weights": lambda rng, tier: fam_weights(rng),
     "cancel": lambda rng, tier: fam_cancel(rng),
+    "forged": lambda rng, tier: fam_forged(rng),
     "trunc_retry": lambda rng, tier: fam_trunc_retry(rng),
 }
 
